@@ -9,6 +9,14 @@
 (*   - every allocated label exceeds every label present in the volume     *)
 (*     (ingested or allocated earlier, or found in the stored voxels after *)
 (*     a crash), unless the counter was repositioned                       *)
+(*     ("reposition" event = POST set-nextlabel/<n> by an administrator:   *)
+(*     from then on the instance hands out n+1, n+2, ... whatever labels   *)
+(*     are present; only "greater than every label present" is waived,     *)
+(*     allocations still strictly increase from the chosen position).      *)
+(* Mutation ids are counted per repo ("repo" field), labels per labelmap   *)
+(* instance ("inst" field); version and instance ids are server-wide.      *)
+(* "present" events carry labels observed in the volume: stored voxels     *)
+(* after a crash, or body labels a client chose through POST mappings.     *)
 (* Restart / Crash events change nothing: identifiers survive them.        *)
 (***************************************************************************)
 EXTENDS Integers, Sequences, FiniteSets, TLC, Json
@@ -17,16 +25,23 @@ TraceLog == ndJsonDeserialize("ids_trace.ndjson")
 
 VARIABLES l,        \* next trace line
           maxLabel, \* largest label present or allocated, per labelmap instance
+          alloc,    \* last label allocated (or the position an administrator chose), per labelmap instance
+          repos,    \* labelmap instances whose label counter was repositioned
           lastMut,  \* last mutation id issued, per repo
           versions, \* version ids issued
           insts     \* instance ids issued
 
-vars == <<l, maxLabel, lastMut, versions, insts>>
+vars == <<l, maxLabel, alloc, repos, lastMut, versions, insts>>
 
 Get(f, k) == IF k \in DOMAIN f THEN f[k] ELSE 0
 Put(f, k, v) == [x \in (DOMAIN f) \cup {k} |-> IF x = k THEN v ELSE f[x]]
 
-Init == l = 1 /\ maxLabel = <<>> /\ lastMut = <<>> /\ versions = {} /\ insts = {}
+Init == l = 1 /\ maxLabel = <<>> /\ alloc = <<>> /\ repos = {} /\ lastMut = <<>> /\ versions = {} /\ insts = {}
+
+Max(a, b) == IF a > b THEN a ELSE b
+\* an allocated label must exceed the previous allocation and, unless repositioned, every label present
+Fresh(inst, id) == /\ id > Get(alloc, inst)
+                   /\ inst \notin repos => id > Get(maxLabel, inst)
 
 IsEvent(e) == l <= Len(TraceLog) /\ TraceLog[l].ev = e /\ l' = l + 1
 
@@ -34,7 +49,7 @@ IsEvent(e) == l <= Len(TraceLog) /\ TraceLog[l].ev = e /\ l' = l + 1
 EvIngest == /\ IsEvent("ingest")
             /\ LET t == TraceLog[l] IN
                maxLabel' = Put(maxLabel, t.inst, IF t.max > Get(maxLabel, t.inst) THEN t.max ELSE Get(maxLabel, t.inst))
-            /\ UNCHANGED <<lastMut, versions, insts>>
+            /\ UNCHANGED <<alloc, repos, lastMut, versions, insts>>
 
 \* after a crash the driver reads the stored voxels: the largest label found there is present,
 \* whether or not the request that wrote it was ever acknowledged (the property speaks of
@@ -42,45 +57,54 @@ EvIngest == /\ IsEvent("ingest")
 EvPresent == /\ IsEvent("present")
              /\ LET t == TraceLog[l] IN
                 maxLabel' = Put(maxLabel, t.inst, IF t.max > Get(maxLabel, t.inst) THEN t.max ELSE Get(maxLabel, t.inst))
-             /\ UNCHANGED <<lastMut, versions, insts>>
+             /\ UNCHANGED <<alloc, repos, lastMut, versions, insts>>
 
 \* one label allocated (cleave, split-supervoxel: the split and the remainder supervoxel)
 EvLabel == /\ IsEvent("label")
            /\ LET t == TraceLog[l] IN
-              /\ t.id > Get(maxLabel, t.inst)
-              /\ maxLabel' = Put(maxLabel, t.inst, t.id)
-           /\ UNCHANGED <<lastMut, versions, insts>>
+              /\ Fresh(t.inst, t.id)
+              /\ maxLabel' = Put(maxLabel, t.inst, Max(t.id, Get(maxLabel, t.inst)))
+              /\ alloc' = Put(alloc, t.inst, t.id)
+           /\ UNCHANGED <<repos, lastMut, versions, insts>>
 
 \* a range allocated by POST nextlabel/<n>
 EvRange == /\ IsEvent("range")
            /\ LET t == TraceLog[l] IN
-              /\ t.start > Get(maxLabel, t.inst) /\ t.end = t.start + t.n - 1
-              /\ maxLabel' = Put(maxLabel, t.inst, t.end)
-           /\ UNCHANGED <<lastMut, versions, insts>>
+              /\ Fresh(t.inst, t.start) /\ t.end = t.start + t.n - 1
+              /\ maxLabel' = Put(maxLabel, t.inst, Max(t.end, Get(maxLabel, t.inst)))
+              /\ alloc' = Put(alloc, t.inst, t.end)
+           /\ UNCHANGED <<repos, lastMut, versions, insts>>
+
+\* an administrator repositions the label counter of an instance: the next label is t.to + 1
+EvReposition == /\ IsEvent("reposition")
+                /\ LET t == TraceLog[l] IN
+                   /\ alloc' = Put(alloc, t.inst, t.to)
+                   /\ repos' = repos \cup {t.inst}
+                /\ UNCHANGED <<maxLabel, lastMut, versions, insts>>
 
 EvMut == /\ IsEvent("mut")
          /\ LET t == TraceLog[l] IN
             /\ t.id > Get(lastMut, t.repo)
             /\ lastMut' = Put(lastMut, t.repo, t.id)
-         /\ UNCHANGED <<maxLabel, versions, insts>>
+         /\ UNCHANGED <<maxLabel, alloc, repos, versions, insts>>
 
 EvVersion == /\ IsEvent("version")
              /\ TraceLog[l].id \notin versions
              /\ versions' = versions \cup {TraceLog[l].id}
-             /\ UNCHANGED <<maxLabel, lastMut, insts>>
+             /\ UNCHANGED <<maxLabel, alloc, repos, lastMut, insts>>
 
 EvInstance == /\ IsEvent("instance")
               /\ TraceLog[l].id \notin insts
               /\ insts' = insts \cup {TraceLog[l].id}
-              /\ UNCHANGED <<maxLabel, lastMut, versions>>
+              /\ UNCHANGED <<maxLabel, alloc, repos, lastMut, versions>>
 
 \* restarts and crashes are stuttering steps for identifiers
-EvRestart == (IsEvent("restart") \/ IsEvent("crash")) /\ UNCHANGED <<maxLabel, lastMut, versions, insts>>
+EvRestart == (IsEvent("restart") \/ IsEvent("crash")) /\ UNCHANGED <<maxLabel, alloc, repos, lastMut, versions, insts>>
 
 \* several traces are concatenated: a reset starts from scratch
-EvReset == IsEvent("reset") /\ maxLabel' = <<>> /\ lastMut' = <<>> /\ versions' = {} /\ insts' = {}
+EvReset == IsEvent("reset") /\ maxLabel' = <<>> /\ alloc' = <<>> /\ repos' = {} /\ lastMut' = <<>> /\ versions' = {} /\ insts' = {}
 
-Next == EvIngest \/ EvPresent \/ EvLabel \/ EvRange \/ EvMut \/ EvVersion \/ EvInstance \/ EvRestart \/ EvReset
+Next == EvIngest \/ EvPresent \/ EvLabel \/ EvRange \/ EvReposition \/ EvMut \/ EvVersion \/ EvInstance \/ EvRestart \/ EvReset
 Spec == Init /\ [][Next]_vars
 
 \* every line of the trace was explained (fully logged events: the search is linear)
